@@ -1241,6 +1241,54 @@ def run_c14h(ctx):
     guarded_clause(ctx, "C14-h", "preprocessing::TropicalSubGraphId", "bit-mask-definitions", body)
 
 
+def run_c14i(ctx):
+    """Iteration count of the sector loop by a ranking argument over decided premises (no execution): the number of edges of the
+    current graph starts at E and drops by exactly one per iteration, so the loop body runs E times, E−1 times in the multi-edge
+    branch (two reads each) and once in the single-edge branch (no read)."""
+    RID = "C14-i"
+    ctx.rule(RID, "sector loop runs exactly E times and reads 2E−2 coordinates: graph starts as the full id (E set bits), the loop runs while it is "
+                  "non-empty, every iteration replaces it by graph∖e with e a member of it (the scan's result / its first edge), the single-edge branch "
+                  "is taken iff one edge is left and breaks before any read, every multi-edge iteration performs exactly two reads")
+    w = sector_world(ctx)
+    fn = "sampling::permatuhedral_sampling"
+    if not w.ok:
+        ctx.ob(RID, "sector routine summarised", False, fn, "kernel-undecided", detail="kernel-undecided: %s" % w.error)
+        return
+    fn = w.sector.path
+
+    def body():
+        pre = getattr(w, "pre_loop", {})
+        graphs = [(n, v) for n, v in pre.items() if isinstance(v, world.GraphIdVal)]
+        if len(graphs) != 1:
+            raise Undecided("loop state: expected one graph variable before the loop (%d)" % len(graphs))
+        gname, g0 = graphs[0]
+        ctx.ob(RID, "before the loop the graph is the full subgraph id (E edges)", g0.key_ == "full", fn, "loop-starts-full", detail="initial graph %s" % g0.key_)
+        cond = w.loop_cond.key() if w.loop_cond is not None else None
+        ctx.ob(RID, "the loop continues exactly while the graph is non-empty", cond == "!(empty(%s))" % gname, fn, "loop-while-nonempty", detail="loop condition %s" % cond)
+        for case, label, member, reads in ((True, "single-edge", "first∈edges(%s)" % gname, 0), (False, "multi-edge", "scan(%s)" % gname, 2)):
+            tr = w.transfers.get(case)
+            if tr is None or tr["error"]:
+                raise Undecided("iteration body (%s case): %s" % (label, tr and tr["error"]))
+            gv = tr["post"].get(gname)
+            want = "pop(%s,«%s»)" % (gname, member)
+            ctx.ob(RID, "[%s] the graph loses exactly one of its own edges: graph := graph∖%s" % (label, member), isinstance(gv, world.GraphIdVal) and gv.key_ == want,
+                   fn, "rank-decreases:" + label, detail="graph becomes %s, expected %s (an edge that is not a member would toggle a bit ON: the count would not drop)"
+                   % (getattr(gv, "key_", gv), want))
+            ctx.ob(RID, "[%s] the only way out of an iteration is the emptiness test of the new graph" % label,
+                   tr["breaks"] == ["empty(%s)" % want] and not tr["always_breaks"], fn, "exit-only-when-empty:" + label, detail="break conditions %s" % tr["breaks"])
+            if case:
+                # one edge left: graph∖e is empty, the break is taken; reads before it must be zero
+                rb = tr["reads_at_break"]
+                ctx.ob(RID, "[single-edge] no coordinate is read before the loop is left", rb == [0], fn, "single-edge-reads", detail="reads before the break: %s" % rb)
+            else:
+                # >= 2 edges: graph∖e is non-empty, the iteration runs to its end
+                ctx.ob(RID, "[multi-edge] exactly two coordinates are read per iteration (edge choice, ξ)", tr["reads"] == reads, fn, "multi-edge-reads",
+                       detail="reads on the continuing path: %s" % tr["reads"])
+        ctx.note("C14-i: by the ranking |edges(graph)| = E, E−1, …, 1, 0 the sector loop reads (E−1)·2 + 0 = 2E−2 coordinates; with C14-f (one λ read) and "
+                 "C14-g (D·L + (D·L mod 2) Gaussian reads) a sample reads exactly get_dimension() = 2E−1+D·L+(D·L mod 2) coordinates")
+    guarded_clause(ctx, RID, fn, "iteration-count", body)
+
+
 def run_c14g(ctx):
     ctx.rule("C14-g", "sibling agreement: the Gaussian routine reads 2·pairs = D·L + (D·L mod 2) coordinates, the Gaussian term of get_num_variables; "
                       "get_dimension = 2E − 1 + D·L + (D·L mod 2)")
@@ -1315,7 +1363,9 @@ class SectorWorld:
                 finally:
                     I.in_transfer = False
                 post = {name: env.get(vid) for (vid, name, ty) in muts}
-                world_self.transfers[case] = {"post": post, "always_breaks": brk, "breaks": [b[0] for b in I.breaks], "reads": sites[0] - sites0, "error": err}
+                world_self.transfers[case] = {"post": post, "always_breaks": brk, "breaks": [b[0] for b in I.breaks], "reads": sites[0] - sites0, "error": err,
+                                              "reads_at_break": [b[2] - sites0 if b[2] is not None else None for b in I.breaks]}
+                world_self.pre_loop = dict(I.pre_while_state or {})
                 restore(env, snap)
             I.models[one_edge_path] = default_one_edge
 
@@ -1340,6 +1390,7 @@ class SectorWorld:
                 hooks[b.path] = (lambda nm: (lambda I_, c, a: num_const(0) if nm.endswith("zero") else num_const(1)))(b.path)
         I = Interp(f, models=hooks)
         I.on_while = on_while
+        I.probe = lambda: sites[0]
         self.I = I
         args = []
         for l in sector.locals[1:sector.arg_count + 1]:
